@@ -43,6 +43,7 @@ def run(run):
         run.floor(r, n)
     project = run.project
     ev = sym.make_evaluator(project, IMG, [], inline_local=True)
+    ev.unroll = True            # a loop over a literal tuple of header keywords is evaluated keyword by keyword
     _r1(run, ev)
     _r2(run)
     _r3(run, ev)
